@@ -154,10 +154,15 @@ fn frame_dispathcer(
 
     let event_broker = event_broker.clone();
     let rcvd_joural = space.journal.of_rcvd_packets();
+    let sent_journal = space.journal.of_sent_packets();
     move |frame: Frame, path: &Path| match frame {
         Frame::Ack(f) => {
-            path.cc().on_ack_rcvd(Epoch::Initial, &f);
-            rcvd_joural.on_rcvd_ack(&f);
+            // An ACK that names packets never sent is refused by the ack handler behind
+            // `ack_frames_entry`; until then nothing may walk its (peer-chosen) ranges.
+            if sent_journal.rotate().update_largest(&f).is_ok() {
+                path.cc().on_ack_rcvd(Epoch::Initial, &f);
+                rcvd_joural.on_rcvd_ack(&f);
+            }
             _ = ack_frames_entry.send(f);
         }
         Frame::Close(f) => event_broker.emit(Event::Closed(f)),
